@@ -2,6 +2,7 @@ package props
 
 import (
 	"fmt"
+	"math"
 	"sort"
 	"strings"
 	"testing"
@@ -121,6 +122,8 @@ func lruProperty(regimes []string) func(t *rapid.T) {
 			ttl = time.Nanosecond
 		case "boundary":
 			ttl = 20 * time.Millisecond
+		case "centuries": // legal, just very long: nothing expires while the test runs
+			ttl = rapid.SampledFrom([]time.Duration{250 * 365 * 24 * time.Hour, time.Duration(math.MaxInt64), time.Duration(math.MaxInt64) - 1, 100 * 365 * 24 * time.Hour}).Draw(t, "long-ttl")
 		}
 		if regime == "boundary" && (capIn <= 0 || capIn > 5) {
 			capIn = 3
@@ -353,7 +356,7 @@ func c12Weighted(acts map[string]func(*rapid.T), rare []string) map[string]func(
 
 func TestC12_Model(t *testing.T) {
 	stat.For("C12").RequireShare("eviction-with-recency", 0.12)
-	rapid.Check(t, lruProperty([]string{"unlimited", "long", "elapsed"}))
+	rapid.Check(t, lruProperty([]string{"unlimited", "long", "elapsed", "centuries"}))
 }
 
 func TestC12_Timed(t *testing.T) {
